@@ -14,7 +14,8 @@ from ..core.prop import Prop
 from ..gen import tables as T
 from ..seams import faults as F
 
-STR_POOLS = [['a', 'b', 'ab', 'abc', 'B', 'é', 'zz'], ['a', 'a ', 'a!', 'a/', 'a0', 'aa', 'a~'], ['x', 'xy', 'xyz', 'x ', 'x-'], ['é', 'e', 'ë', 'z', 'Z', '\U0001F600', 'זה'], ['k1', 'k10', 'k2', 'k']]
+STR_POOLS = [['a', 'b', 'ab', 'abc', 'B', 'é', 'zz'], ['a', 'a ', 'a!', 'a/', 'a0', 'aa', 'a~'], ['x', 'xy', 'xyz', 'x ', 'x-'], ['é', 'e', 'ë', 'z', 'Z', '\U0001F600', 'זה'], ['k1', 'k10', 'k2', 'k'],
+             ['10', '9', '1.0', '1', ' 7', '1e3', '-5', 'nan', 'inf', '1_0', 'zebra']]     # text that looks like numbers is still text
 NUM_POOLS = [[0, 1, -1, 2, 10, -10, 100], [0.5, -0.5, 1.25, -1.25, 0.0, 2.0], [1e10, -1e10, 1e-5, -1e-5, 3.0, -3.0], [1e300, -1e300, -1e232, 1e200, -1e200, 5.0],
              [decimal.Decimal('1.5'), decimal.Decimal('-2.25'), decimal.Decimal('100'), decimal.Decimal('0.001'), 7, -7.5], [2**40, -2**40, 2**52, 12345, -12345], [0, 0.0, -0.0, 1, -1],
              [1, 1.0, decimal.Decimal('1.00'), 2, 2.0, decimal.Decimal('2.50'), 2.5, -2, -2.0, decimal.Decimal('-2.00')]]
@@ -92,7 +93,7 @@ class C12(Prop):
             'resource passing by. Non-trivial = at least two rows share a key and at least two differ; distinct = distinct (key form, value pools, reverse, knobs, size).')
     ASSUMPTIONS = ['numeric key values are distinct in double precision (the encoding\'s stated domain) and key fields are non-null', 'multi-field keys put numeric fields before text so that the order does not depend on the particular order-preserving number encoding']
     REAL_VS_STUB = {'real': ['dataflows sort_rows', 'kvfile + sqlite ordering'], 'stub': ['KVFile twin: cache-size knob and operation counter']}
-    PROBES = ['reverse', 'spill-path', 'prefix-strings-below-0', 'negative-zero', 'huge-negative', 'decimal-values', 'callable-key', 'format-string-key', 'field-list-key', 'two-field-key', 'ties', 'other-resource', 'rows>10240', 'equal-numbers-different-spelling']
+    PROBES = ['reverse', 'spill-path', 'prefix-strings-below-0', 'negative-zero', 'huge-negative', 'decimal-values', 'callable-key', 'format-string-key', 'field-list-key', 'two-field-key', 'ties', 'other-resource', 'rows>10240', 'equal-numbers-different-spelling', 'numeric-looking-text']
     TIERS = {'quick': dict(runs=1500, wall=100, run_wall=300),
              'thorough': dict(runs=40000, wall=1700, run_wall=600)}
     SHRINK_FROZEN = ('fields',)
@@ -162,6 +163,8 @@ class C12(Prop):
     def _probes(self, sc, ctx, rows, keys):
         if sc.get('reverse'):
             ctx.probe('reverse')
+        if any(r.get('s') in ('10', '9', '1e3', 'nan') for r in rows) and 's' in json.dumps(sc['key']):
+            ctx.probe('numeric-looking-text')
         k = sc['key']
         if isinstance(k, dict):
             ctx.probe('callable-key')
